@@ -51,6 +51,10 @@ def c02(tier):
         sc = {"prop": "C02", "cfgs": cfgs(kinds, [n]), "alphabet": alpha, "unit": 1, "maxlen": L, "extras": True}
         run.submit(p1_job, "w-n%d" % n, "MC_Def", sc)
         with_model(run, "w-n%d" % n, sc)
+    # "N values delivered": the window counts what the inner view delivers, not what was fed (inner view withholds its first value)
+    for n, L in ((1, 5), (2, 6), (3, 7)) if tier == "quick" else ((1, 6), (2, 7), (3, 8), (4, 9)):
+        sc = {"prop": "C02", "cfgs": chains2(cfgs(kinds, [n]), sma(2)), "alphabet": [-2, 0, 3], "unit": 1, "maxlen": L, "extras": True}
+        run.submit(p1_job, "w-chain-n%d" % n, "MC_Def", sc)
     for m in ("Ind_Sma", "Ind_Ext", "Ind_HL", "Ind_Count"):
         run.submit(apalache_job, m)
     norm = ["HLNormalizer", "Roc", "BinaryEntropy", "Vsct", "Vst"]
